@@ -49,7 +49,17 @@ RULE = ('checksum: real files in a scratch directory, sizes k*c-1, k*c, k*c+1 (k
         '1..4, thorough 1..8), a regular file, a directory, a symlink to a directory and a dangling symlink - absolute, '
         'relative to the current directory and leaving/re-entering it; oracle: the outcome of the bare OS call on the '
         'given path (twin) decides, the whole tree equals the twin tree afterwards, and after ensure_tree returns the '
-        'given path is a directory wherever the bare os.makedirs leaves one. A case is non-trivial when at least two chunks are fed or an error branch '
+        'given path is a directory wherever the bare os.makedirs leaves one. Class versus errno: the property words its '
+        'exceptions by error code (already-exists, not-found, EINVAL), so an injected OSError is judged by the errno '
+        'attribute it carries when it is raised and never by its class: each errno is injected as plain OSError(code) '
+        '(which Python maps to its specific subclass), as a user subclass of OSError, with errno assigned after '
+        'construction, and the key errnos and errno None also as FileNotFoundError / FileExistsError / PermissionError / '
+        'NotADirectoryError / IsADirectoryError / IOError carrying that (other) errno - into os.makedirs, the remove '
+        'callable (argument and default), remove_path_on_error through its default chain, and the first seek of '
+        'last_bytes. Call sequences: write_to_tempfile / ensure_tree / delete_if_exists on the same path strings '
+        'interleaved with removing the directory or an ancestor, replacing either by a file, creating the victim file '
+        'and changing the current directory (absolute and relative paths; exhaustive up to 3 steps, random up to 9); '
+        'every call is judged on the bare OS outcome on the twin tree at that moment. A case is non-trivial when at least two chunks are fed or an error branch '
         'is taken (checksum), n > 0 or a fault is injected (last_bytes), an exception is injected or the path is not '
         'simply missing (ensure/delete); distinct by the canonical case tuple')
 TRUSTED_BASE = [
@@ -169,20 +179,42 @@ def content(size, seed):
     return _content_cache[k]
 
 
+class RemoteFSError(OSError):
+    """a user subclass of OSError: the constructor does not remap it to FileNotFoundError & co."""
+
+
+SHAPES = {'fnf': FileNotFoundError, 'fee': FileExistsError, 'perm': PermissionError, 'nad': NotADirectoryError,
+          'isad': IsADirectoryError, 'io': IOError, 'user': RemoteFSError}
+
+
+def mspec(spec):
+    """the part of an exception spec the model sees: errno (and OSError-ness), never the class"""
+    return spec.split('@')[0]
+
+
 def make_exc(spec):
-    """'ok' -> None; 'os:<errno|N>' | 'val' | 'other:<tag>' -> a fresh exception object"""
+    """'ok' -> None; 'os:<errno|N>[@shape]' | 'val' | 'other:<tag>' -> a fresh exception object.
+    The shape varies the CLASS independently of the errno: plain OSError(code) (which Python maps to its specific
+    subclass), a specific builtin subclass carrying another errno (fnf, fee, perm, nad, isad), the IOError alias,
+    a user subclass (not remapped), and 'late' = errno assigned after construction."""
     if spec == 'ok':
         return None
+    spec, _, shape = spec.partition('@')
     kind, _, arg = spec.partition(':')
     if kind == 'os':
+        cls = SHAPES.get(shape, OSError)
+        if shape == 'late':
+            x = OSError('errno assigned after construction')
+            x.errno = None if arg == 'N' else int(arg)
+            return x
         if arg == 'N':
-            return OSError('no errno')
+            return cls('no errno')
         e = int(arg)
         try:
             msg = os.strerror(e)
         except (ValueError, OverflowError):
             msg = 'unknown'
-        return OSError(e, msg)
+        return cls(e, msg)
     if kind == 'val':
         return ValueError('injected')
     if kind == 'other':
@@ -213,9 +245,18 @@ def patched(obj, name, value):
             setattr(obj, name, old)
 
 
+KEY_ERRNOS = (errno.ENOENT, errno.EEXIST, errno.EINVAL, errno.EACCES, errno.EPERM, errno.EISDIR, errno.ENOTDIR)
+
+
 def exc_specs(full=True):
     specs = ['os:%d' % e for e in sorted(errno.errorcode)]
     specs += ['os:N', 'os:0', 'os:9999', 'os:-1', 'val', 'other:1', 'other:2']
+    # class and errno varied independently
+    for e in list(KEY_ERRNOS) + ['N']:
+        specs += ['os:%s@%s' % (e, sh) for sh in ('fnf', 'fee', 'perm', 'nad', 'isad', 'io', 'user', 'late')]
+    for e in sorted(errno.errorcode):
+        if e not in KEY_ERRNOS:
+            specs += ['os:%d@user' % e, 'os:%d@late' % e]
     return specs
 
 
@@ -558,7 +599,7 @@ def impl_last_bytes(sc, case):
 
 
 def line_last_bytes(case):
-    return req('last', hexb(content(case['size'], case['seed'])), case['num'], case.get('fault') or '-')
+    return req('last', hexb(content(case['size'], case['seed'])), case['num'], mspec(case.get('fault') or '-'))
 
 
 def oracle_last_bytes(sc, case):
@@ -569,7 +610,7 @@ def oracle_last_bytes(sc, case):
     if fault and not fault.startswith('os:'):
         return None                  # what a non-OSError from seek does is not part of the property (model tie only)
     if fault:
-        if fault == 'os:%d' % errno.EINVAL:
+        if mspec(fault) == 'os:%d' % errno.EINVAL:
             if r != ('ok', data, 0):
                 return 'seek failed with EINVAL but the whole file was not returned: %r' % (r[:1] + r[2:],)
         elif r[0] != 'err' or r[1] != canon_exc(make_exc(fault)) or not r[2]:
@@ -779,13 +820,13 @@ def impl_ensure(sc, case):
 
 
 def line_ensure(case):
-    return req('ensure', case['exc'], 1 if case['pathkind'] == 'dir' else 0)
+    return req('ensure', mspec(case['exc']), 1 if case['pathkind'] == 'dir' else 0)
 
 
 def oracle_ensure(sc, case):
     res, calls, path = run_ensure(sc, case)
     spec = case['exc']
-    ok = spec == 'ok' or (spec == 'os:%d' % errno.EEXIST and case['pathkind'] == 'dir')
+    ok = spec == 'ok' or (mspec(spec) == 'os:%d' % errno.EEXIST and case['pathkind'] == 'dir')
     want = 'returned' if ok else 'raised ' + canon_exc(make_exc(spec))
     if res != want:
         return 'makedirs outcome %s on a %s path: ensure_tree %s, expected %s' % (spec, case['pathkind'], res, want)
@@ -827,18 +868,67 @@ def impl_delete(sc, case):
 
 
 def line_delete(case):
-    return req('delete', case['exc'])
+    return req('delete', mspec(case['exc']))
 
 
 def oracle_delete(sc, case):
     res, calls, path = run_delete(sc, case)
     spec = case['exc']
-    ok = spec in ('ok', 'os:%d' % errno.ENOENT)
+    ok = mspec(spec) in ('ok', 'os:%d' % errno.ENOENT)
     want = 'returned' if ok else 'raised ' + canon_exc(make_exc(spec))
     if res != want:
         return 'remove outcome %s: delete_if_exists %s, expected %s' % (spec, res, want)
     if calls != [((path,), {})]:
         return 'remove was not called exactly once with the path: %r' % (calls,)
+    return None
+
+
+def run_rpoe(sc, case):
+    """remove_path_on_error(path) with its default remover delete_if_exists, whose own default remover is replaced
+    by a stub raising the injected exception"""
+    fu = fileutils()
+    path = make_path(sc, 'file')
+    exc = make_exc(case['exc'])
+    body = make_exc(case.get('body', 'ok'))
+    calls = []
+
+    def fake(*a, **k):
+        calls.append((a, k))
+        if exc is not None:
+            raise exc
+    f = fu.delete_if_exists
+    old = f.__defaults__
+    f.__defaults__ = (fake,)
+    try:
+        with quiet_logging():
+            with fu.remove_path_on_error(path):
+                if body is not None:
+                    raise body
+        res = 'returned'
+    except BaseException as e:
+        res = 'raised ' + canon_exc(e)
+        if e is body:
+            res += ' [body]'
+        elif e is not exc:
+            res += ' (a different exception object)'
+    finally:
+        f.__defaults__ = old
+    return res, calls, path
+
+
+def oracle_rpoe(sc, case):
+    res, calls, path = run_rpoe(sc, case)
+    body, spec = case.get('body', 'ok'), case['exc']
+    if body == 'ok':
+        want, ncalls = 'returned', 0
+    elif mspec(spec) in ('ok', 'os:%d' % errno.ENOENT):
+        want, ncalls = 'raised %s [body]' % canon_exc(make_exc(body)), 1
+    else:
+        want, ncalls = 'raised ' + canon_exc(make_exc(spec)), 1
+    if res != want:
+        return 'block raises %s, remover outcome %s: remove_path_on_error %s, expected %s' % (body, spec, res, want)
+    if len(calls) != ncalls:
+        return 'the remover was called %d times, expected %d' % (len(calls), ncalls)
     return None
 
 
@@ -1073,8 +1163,12 @@ def gen_decisions(ctx):
         for k in kinds:
             out.append(({'op': 'ensure', 'exc': spec, 'pathkind': k}, 'ensure/inject'))
         out.append(({'op': 'delete', 'exc': spec, 'via': 'arg'}, 'delete/inject'))
-        if not ctx.quick or spec in ('ok', 'os:2', 'os:13', 'os:17', 'val'):
+        if not ctx.quick or '@' in spec or spec in ('ok', 'os:2', 'os:13', 'os:17', 'val'):
             out.append(({'op': 'delete', 'exc': spec, 'via': 'default'}, 'delete/inject-default'))
+    for spec in ['ok'] + exc_specs():
+        if '@' in spec or not ctx.quick or spec in ('ok', 'os:2', 'os:13', 'os:17', 'os:N', 'val'):
+            for body in ('val', 'os:2@user', 'ok') if spec in ('ok', 'os:2', 'os:13', 'os:2@user', 'os:N@fnf') else ('val',):
+                out.append(({'op': 'rpoe', 'exc': spec, 'body': body}, 'remove_path_on_error/inject'))
     out.append(({'op': 'ensure', 'exc': 'ok', 'pathkind': 'missing', 'mode': 0o700}, 'ensure/inject'))
     out.append(({'op': 'ensure', 'exc': 'os:17', 'pathkind': 'dir', 'mode': 0o750}, 'ensure/inject'))
     return out
@@ -1397,14 +1491,218 @@ def oracle_tmpw(sc, case):
 
 
 # --------------------------------------------------------------------------
+# call sequences on the real file system: the helpers keep no memory, so every call - also the n-th with the same
+# path string - is judged on the state of the file system at that moment (bare OS call on the twin tree)
+
+SEQ_DIRS = {'D1': ('x', 'y', 'z'), 'D2': ('x',), 'D3': ('x', 'y')}
+SEQ_STEPS = ('W:D1', 'W:D2', 'E:D1', 'X:D1', 'R:D1', 'R:D2', 'F:D1', 'F:D3', 'T:D1', 'C')
+
+
+def run_seq(sc, case):
+    """-> list of records {'step', 'res', 'line' (model request), 'problem' (property oracle)} for the API calls"""
+    fu = fileutils()
+    rp, rq = sc.fresh('q'), sc.fresh('q')
+    tag = os.path.basename(rp)                                  # makes the path strings of this sequence unique
+    for r in (rp, rq):
+        for c in ('A', 'B'):
+            os.makedirs(os.path.join(r, c))
+    rel = bool(case.get('rel'))
+    cwdname = 'A'
+    home = os.getcwd()
+    out = []
+
+    def path_of(root, key, *more):
+        parts = (tag,) + SEQ_DIRS[key] + more
+        return os.path.join(*parts) if rel else os.path.join(root, cwdname, *parts)
+
+    def both(fn):
+        for r in (rp, rq):
+            os.chdir(os.path.join(r, cwdname))
+            fn(r)
+        os.chdir(home)
+
+    def rmtree(path):
+        if os.path.isdir(path) and not os.path.islink(path):
+            shutil.rmtree(path)
+        elif os.path.lexists(path):
+            os.unlink(path)
+    try:
+        for i, step in enumerate(case['steps']):
+            kind, _, key = step.partition(':')
+            if kind == 'C':
+                cwdname = 'B' if cwdname == 'A' else 'A'
+                continue
+            if kind == 'R':
+                both(lambda r: rmtree(path_of(r, key)))
+                continue
+            if kind == 'F':
+                def mk(r):
+                    pth = path_of(r, key)
+                    rmtree(pth)
+                    os.makedirs(os.path.dirname(pth), exist_ok=True) if not os.path.lexists(os.path.dirname(pth)) else None
+                    if os.path.isdir(os.path.dirname(pth)):
+                        with open(pth, 'wb') as f:
+                            f.write(b'in the way')
+                both(mk)
+                continue
+            if kind == 'T':
+                def touch(r):
+                    if os.path.isdir(path_of(r, key)):
+                        with open(path_of(r, key, 'victim'), 'wb') as f:
+                            f.write(b'v')
+                both(touch)
+                continue
+            rec = {'step': '%d:%s' % (i, step), 'problem': None}
+            data = content(9, 100 + i)
+            # ---- the bare OS call on the twin tree
+            os.chdir(os.path.join(rq, cwdname))
+            if kind in ('W', 'E'):
+                dq = path_of(rq, key)
+                ref = ref_call(os.makedirs, dq, 0o777)
+                spec, isdir = outcome_spec(ref), os.path.isdir(dq)
+                ok = spec == 'ok' or (spec == 'os:%d' % errno.EEXIST and isdir)
+            else:
+                ref = ref_call(os.unlink, path_of(rq, key, 'victim'))
+                spec, isdir = outcome_spec(ref), False
+                ok = spec in ('ok', 'os:%d' % errno.ENOENT)
+            want_exc = None if ok else canon_exc(make_exc(spec))
+            # ---- the helper on the tree under test
+            os.chdir(os.path.join(rp, cwdname))
+            if kind == 'E':
+                try:
+                    fu.ensure_tree(path_of(rp, key))
+                    res = 'returned'
+                except BaseException as e:
+                    res = 'raised ' + canon_exc(e)
+                rec.update(res=res, line=req('ensure', spec, int(isdir)))
+                if res != ('returned' if ok else 'raised ' + want_exc):
+                    rec['problem'] = 'os.makedirs alone gives %s (isdir=%s) at this point, ensure_tree %s' % (spec, isdir, res)
+            elif kind == 'X':
+                try:
+                    fu.delete_if_exists(path_of(rp, key, 'victim'))
+                    res = 'returned'
+                except BaseException as e:
+                    res = 'raised ' + canon_exc(e)
+                rec.update(res=res, line=req('delete', spec))
+                if res != ('returned' if ok else 'raised ' + want_exc):
+                    rec['problem'] = 'os.unlink alone gives %s at this point, delete_if_exists %s' % (spec, res)
+            else:
+                log = {'ensure': [], 'mk': [], 'close': []}
+                real_e, real_m, real_c = fu.ensure_tree, tempfile.mkstemp, os.close
+
+                def f_e(*a, **k):
+                    try:
+                        r = real_e(*a, **k)
+                    except BaseException as e:
+                        log['ensure'].append(e)
+                        raise
+                    log['ensure'].append(None)
+                    return r
+
+                def f_m(*a, **k):
+                    try:
+                        r = real_m(*a, **k)
+                    except BaseException as e:
+                        log['mk'].append(e)
+                        raise
+                    log['mk'].append(r)
+                    return r
+
+                def f_c(fd):
+                    log['close'].append(fd)
+                    return real_c(fd)
+                dp = path_of(rp, key)
+                made = None
+                with patched(fu, 'ensure_tree', f_e), patched(tempfile, 'mkstemp', f_m), patched(os, 'close', f_c):
+                    try:
+                        r = fu.write_to_tempfile(data, path=dp)
+                        res = 'returned'
+                    except BaseException as e:
+                        r = None
+                        res = 'raised ' + canon_exc(e)
+                if log['mk'] and not isinstance(log['mk'][-1], BaseException):
+                    made = log['mk'][-1]
+                if made:
+                    mpath = os.path.join(os.getcwd(), made[1])
+                    file = hexb(open(mpath, 'rb').read()) if os.path.isfile(mpath) else 'none'
+                    closed = int(made[0] in log['close'])
+                else:
+                    file, closed = 'none', 0
+                e_spec = outcome_spec(log['ensure'][-1]) if log['ensure'] else 'ok'
+                m_spec = 'ok' if made or not log['mk'] else outcome_spec(log['mk'][-1])
+                rec.update(res='%s ensure=%d file=%s closed=%d' % (res, int(bool(log['ensure'])), file, closed),
+                           line=req('tmp', hexb(data), 1, e_spec, m_spec, 'ok'))
+                if ok:
+                    if res != 'returned':
+                        rec['problem'] = ('the directory can be created at this point (os.makedirs alone: %s), but '
+                                          'write_to_tempfile %s' % (spec, res))
+                    else:
+                        full = os.path.join(os.getcwd(), r)
+                        if not os.path.isdir(dp):
+                            rec['problem'] = 'write_to_tempfile returned but the directory argument is not a directory'
+                        elif os.path.realpath(os.path.dirname(full)) != os.path.realpath(dp):
+                            rec['problem'] = 'the file was created in %s, not in the directory argument' % os.path.dirname(r)
+                        elif not os.path.isfile(full) or open(full, 'rb').read() != data:
+                            rec['problem'] = 'the file does not hold exactly the content'
+                        else:                                   # keep the twin in step: same name, same content
+                            with open(os.path.join(rq, cwdname, os.path.relpath(full, os.path.join(rp, cwdname))), 'wb') as f:
+                                f.write(data)
+                elif res != 'raised ' + want_exc:
+                    rec['problem'] = ('os.makedirs alone gives %s at this point (not a directory), so that error must come '
+                                      'out, but write_to_tempfile %s' % (spec, res))
+            os.chdir(home)
+            if not rec['problem']:
+                tp, tq = tree(rp), tree(rq)
+                if tp != tq:
+                    rec['problem'] = 'compared with the OS calls alone the tree has entries %r instead of %r' % (
+                        sorted(set(tp) - set(tq)), sorted(set(tq) - set(tp)))
+            out.append(rec)
+            if rec['problem']:
+                break
+    finally:
+        os.chdir(home)
+    return out
+
+
+def oracle_seq(sc, case):
+    for rec in run_seq(sc, case):
+        if rec['problem']:
+            return 'step %s of %s%s: %s' % (rec['step'], ','.join(case['steps']),
+                                            ' (paths relative to the current directory)' if case.get('rel') else '',
+                                            rec['problem'])
+    return None
+
+
+def gen_seq(ctx, full=False):
+    rng = ctx.rng
+    out = []
+    maxlen = 3
+    for n in range(1, maxlen + 1):
+        for steps in itertools.product(SEQ_STEPS, repeat=n):
+            if not any(x[0] in 'WEX' for x in steps):
+                continue                                         # no API call at all
+            for rel in (False, True):
+                if rel and 'C' not in steps and n == maxlen and ctx.quick and rng.random() < 0.5:
+                    continue
+                out.append(({'op': 'seq', 'steps': list(steps), 'rel': rel}, 'seq/exhaustive<=%d%s' % (maxlen, '/relative' if rel else '')))
+    for _ in range((400 if ctx.quick else 6000) * (3 if full else 1)):
+        n = rng.randrange(4, 10)
+        steps = [rng.choice(SEQ_STEPS + ('W:D1', 'W:D1', 'R:D1')) for _ in range(n)]
+        out.append(({'op': 'seq', 'steps': steps, 'rel': rng.random() < 0.4}, 'seq/random-long'))
+    return out
+
+
+# --------------------------------------------------------------------------
 # dispatch
 
-IMPL = {'checksum': impl_checksum, 'last_bytes': impl_last_bytes, 'ensure': impl_ensure, 'delete': impl_delete}
+IMPL = {'checksum': impl_checksum, 'last_bytes': impl_last_bytes, 'ensure': impl_ensure, 'delete': impl_delete,
+        'rpoe': lambda sc, c: run_rpoe(sc, c)[0]}
 LINE = {'checksum': line_checksum, 'last_bytes': line_last_bytes, 'ensure': line_ensure, 'delete': line_delete,
+        'rpoe': lambda c: req('rpoe', 'none' if c.get('body', 'ok') == 'ok' else mspec(c['body']), mspec(c['exc'])),
         'fs_ensure': lambda c: req('fs_ensure', c['kind']), 'fs_delete': lambda c: req('fs_delete', c['kind'])}
 ORACLE = {'checksum': oracle_checksum, 'last_bytes': oracle_last_bytes, 'ensure': oracle_ensure,
-          'delete': oracle_delete, 'fs_ensure': oracle_fs, 'fs_delete': oracle_fs, 'fs_rpoe': oracle_fs,
-          'tempfile': oracle_tempfile, 'tmpw': oracle_tmpw}
+          'delete': oracle_delete, 'rpoe': oracle_rpoe, 'fs_ensure': oracle_fs, 'fs_delete': oracle_fs, 'fs_rpoe': oracle_fs,
+          'tempfile': oracle_tempfile, 'tmpw': oracle_tmpw, 'seq': oracle_seq}
 
 
 N7 = 'N7'
@@ -1536,6 +1834,24 @@ def correspondence(ctx):
             if res != rep:
                 out.append(Disagreement(dict(case, call=k, os_outcome=spec), res, rep,
                                         where='decision on the outcome of the real OS call'))
+        # 6 (run first, before the bulk of part 5). call sequences: every API call of every sequence against the model
+        seqs = []
+        for case, tag in gen_seq(ctx):
+            recs = run_seq(sc, case)
+            ctx.evaluations += 1
+            ctx.count('corr/' + tag)
+            if len(recs) >= 2:
+                ctx.nontrivial((tuple(case['steps']), case['rel']))
+            seqs += [(case, r) for r in recs]
+        uniq = list(dict.fromkeys(r['line'] for _, r in seqs))
+        answers = dict(zip(uniq, ctx.driver.ask_many(uniq)))
+        for case, r in seqs:
+            ctx.count('seq-call/' + r['step'].split(':')[1] + '/' + r['res'].split(' ensure=')[0].split(':')[0])
+            if r['res'] != answers[r['line']]:
+                out.append(Disagreement(dict(case, at=r['step']), r['res'], answers[r['line']],
+                                        where='call inside a sequence, decided on the OS outcomes at that moment'))
+        if seqs:
+            ctx.sample({'case': seqs[-1][0], 'implementation': [r['res'][:80] for c, r in seqs if c is seqs[-1][0]]}, 60)
         # 5. write_to_tempfile: every bytes-like content type x sizes x path argument, and each of its three calls
         #    made to fail; the model request carries the bytes the object exposes and the outcomes of the calls
         runs = []
@@ -1565,6 +1881,9 @@ def correspondence(ctx):
 def shrink(sc, case):
     """smaller failing case of the same kind, by a small grid"""
     op = case['op']
+    if op == 'seq':
+        steps = common.shrink_list(case['steps'], lambda sub: oracle_seq(sc, dict(case, steps=sub)) is not None, max_steps=120)
+        return dict(case, steps=steps)
     if op == 'checksum':
         cs0 = case['cs']
         for cs in [1, 2, 3, 7] + ([cs0] if cs0 not in (1, 2, 3, 7) else []):
@@ -1617,6 +1936,7 @@ def gen_search(ctx, full):
     cases += [c for c, _ in gen_fs(ctx)]
     cases += gen_tempfile(ctx)
     cases += [c for c, _ in gen_tmpw(ctx)]
+    cases += [c for c, _ in gen_seq(ctx, full)]
     # path argument types for the reading helpers
     for ptype in PTYPES[1:]:
         for cs in (1, 7, 'D'):
@@ -1656,7 +1976,7 @@ def search(ctx, seeds, full=False):
             elif is_n7(case):
                 kind = 'write_to_tempfile short write'
             else:
-                kind = case['op'] if case['op'] in ('ensure', 'delete') else \
+                kind = case['op'] if case['op'] in ('ensure', 'delete', 'rpoe') else \
                     'write_to_tempfile/content-type' if case.get('ctype', 'bytes') != 'bytes' and not case.get('inject') else '%s/%s' % (
                     case['op'], (':'.join(case['kind'].split(':')[:2]) if case.get('kind') else None) or ('seek-fault' if case.get('fault') else None) or case.get('where') or
                                   ('cs' if case['op'] == 'checksum' else 'n'))
@@ -1717,6 +2037,11 @@ def replay(ctx, payload):
             print('implementation:', IMPL[op](sc, case)[:1000])
             rep = ctx.driver.ask(LINE[op](case))
             print('model         :', (view_checksum(case, rep) if op == 'checksum' else rep)[:1000])
+        elif op == 'seq':
+            recs = run_seq(sc, case)
+            for r, m in zip(recs, ctx.driver.ask_many([r['line'] for r in recs])):
+                print('call %-8s implementation: %s' % (r['step'], r['res']))
+                print('              model         : %s' % m)
         elif op == 'tmpw':
             r = run_tmpw(sc, case)
             if r:
